@@ -290,6 +290,11 @@ def run(ctx):
     ctx.guarded('C10-D3', 'linalg.py@blocks', d3_blocks, ctx, lin)
     ctx.guarded('C10-D4', 'linalg.py@naming', d4_naming, ctx, lin)
     ctx.guarded('C10-D5', 'linalg.py@jack', d5_jack, ctx, lin)
+    from .. import unusedparams
+    ctx.rule('C10-D6', 'every accepted option is read (no silently ignored parameter)')
+    for mn_ in ('linalg',):
+        ctx.guarded('C10-D6', mn_ + '@parameters', unusedparams.check, ctx, 'C10-D6', ctx.repo.mod(mn_))
+
 
 
 SELFTEST = [
